@@ -128,7 +128,10 @@ def run(tier):
     rows2 = [e for e in allrows if e["run"] == 2]
     rows3 = [e for e in allrows if e["run"] == 3]
     if len(rows3) != len(batched):
-        raise common.MachineryError("batched run returned %d rows for %d valid inputs" % (len(rows3), len(batched)))
+        # rows lost in the batched run: nothing to compare, and that is itself spelling / layout dependence
+        rep.fail("BatchedRunReturnsEveryRow", "batched run returned %d rows for %d valid inputs" % (len(rows3), len(batched)),
+                 detail={"batch_size": 6}, group="rows-lost", replay={"inputs": [inputs[j] for j in batched][:40]})
+        batched, rows3 = [], []
     if len(rows) != len(inputs) or len(rows2) != len(keep):
         raise common.MachineryError("pipeline returned %d + %d rows for %d + %d valid inputs" % (len(rows), len(rows2),
                                                                                               len(inputs), len(keep)))
